@@ -16,6 +16,7 @@ func installOracles(m *Monitors) {
 		m.final,
 		&orC01{baseOracle: baseOracle{m}},
 		&orC03A{baseOracle: baseOracle{m}},
+		&orC04{baseOracle: baseOracle{m}},
 		&orC05{baseOracle: baseOracle{m}},
 		&orC06{baseOracle: baseOracle{m}},
 		&orC10{baseOracle: baseOracle{m}},
